@@ -23,7 +23,11 @@ EXPLANATION = (
     "program). BOUNDED: nominal (month/year) intervals - counts and anchors are not a "
     "consequence of the per-function contracts - on a grid of month-end / leap-day / day-366 "
     "/ week-53 anchors.")
-ASSUMPTIONS = ["min_point/max_point are None (as the parser produces them)",
+ASSUMPTIONS = ["lru_cache is the identity for the executor: justified per call by the obligation "
+               "memo[f].key-equality-is-identity (no key argument of a memoised function is an "
+               "instance of a class with its own __eq__, e.g. a TimePoint compared by instant) "
+               "together with C15's key-covers-calendar obligations",
+               "min_point/max_point are None (as the parser produces them)",
                "nominal intervals: bounded grid only (one known finding, region-listed)"]
 LEVEL_TEXT = "Exact intervals: proof. Nominal intervals: bounded grid. Hence 'other'."
 LEVEL_NOTE = "Quick tier runs the recurrence proofs in 2 calendar modes, thorough in 4."
